@@ -51,7 +51,7 @@ def ensure_tools():
         subprocess.check_call([os.path.join(VERIF, "tools", "build.sh")], stdout=subprocess.DEVNULL)
 
 
-def astfacts(unit, funcs=None, tables=None, enums=None, records=None, discards=False, globals_=False,
+def astfacts(unit, funcs=None, funcs_calling=None, tables=None, enums=None, records=None, discards=False, globals_=False,
              constcasts=False, funcindex=False, extra_flags=()):
     """Run the extractor on one unit of /repo (path relative to /repo) and return the facts."""
     ensure_tools()
@@ -60,6 +60,7 @@ def astfacts(unit, funcs=None, tables=None, enums=None, records=None, discards=F
         raise AnalysisBroken("unit %s does not exist" % unit)
     opts = []
     if funcs: opts += ["--funcs", funcs]
+    if funcs_calling: opts += ["--funcs-calling", funcs_calling]
     if tables: opts += ["--tables", tables]
     if enums: opts += ["--enums", enums]
     if records: opts += ["--records", records]
